@@ -607,7 +607,7 @@ impl Monitor for C02 {
         ]
     }
     fn rule(&self) -> &'static str {
-        "36 directed histories (all 6 orders of {increase, decrease, draw} x {before, at, after expiry} x {height, time expiry}) then seeded random histories biased to existing (owner,spender) pairs and expiry boundaries; after every call all pool balances and all 36 pool allowances are re-read and compared with an independent allowance/authority model plus a cumulative granted/drawn ledger; Send/SendFrom responses are decoded; every fifth history upgrades the token in mid-life through the real migrate from an old version string (by-spender index stripped): balances, allowances and supply must be unchanged and nobody gains authority. distinct = (operation kind, outcome, amount vs allowance below/equal/above, allowance expired?)"
+        "36 directed histories (all 6 orders of {increase, decrease, draw} x {before, at, after expiry} x {height, time expiry}) then seeded random histories biased to existing (owner,spender) pairs and expiry boundaries; after every call all pool balances and all 36 pool allowances are re-read and compared with an independent allowance/authority model plus a cumulative granted/drawn ledger; Send/SendFrom responses are decoded; no successful move names more than the source held (also when source and target coincide); every fifth history upgrades the token in mid-life through the real migrate from an old version string (by-spender index stripped): balances, allowances and supply must be unchanged and nobody gains authority. distinct = (operation kind, outcome, amount vs allowance below/equal/above, allowance expired?)"
     }
     fn assumptions(&self) -> Vec<&'static str> {
         vec![
